@@ -419,7 +419,12 @@ func (f *Frame) bindLoopSpecs() {
 	if f.con == nil {
 		return
 	}
+	var lis []*loopInfo
 	for _, li := range f.loops {
+		lis = append(lis, li)
+	}
+	sort.Slice(lis, func(i, j int) bool { return lis[i].ord < lis[j].ord })
+	for _, li := range lis {
 		for _, k := range li.keys() {
 			for _, ls := range f.con.Loops {
 				if !ls.Used && ls.Key == k {
@@ -829,7 +834,9 @@ func (f *Frame) exec(ins ssa.Instruction) {
 			bs = append(bs, f.val(b))
 		}
 		id := f.newRef("closure:"+x.Fn.Name(), x.Type())
-		f.vals[x] = &Closure{fn: x.Fn.(*ssa.Function), bindings: bs, id: id}
+		cl := &Closure{fn: x.Fn.(*ssa.Function), bindings: bs, id: id}
+		f.vals[x] = cl
+		f.closureSpec(cl)
 	case *ssa.MakeMap:
 		r := f.newRef("map", x.Type())
 		key := f.mapKey(x.Type())
@@ -905,6 +912,48 @@ func (f *Frame) exec(ins ssa.Instruction) {
 			f.vals[v] = vc.freshVal("unsupported", v.Type())
 		}
 	}
+}
+
+// closureSpec: a function literal that has its own (verified) contract and the shape func(int-like) bytes is
+// summarised at creation: for all arguments a, requires => ensures[result := LeaderFn(closure, a)].
+func (f *Frame) closureSpec(cl *Closure) {
+	vc := f.vc
+	con := vc.P.contracts.ByKey[vc.P.fnKey(cl.fn)]
+	if con == nil || len(con.Ensures) == 0 || len(cl.fn.Params) != 1 || cl.fn.Signature.Results().Len() != 1 {
+		return
+	}
+	p := cl.fn.Params[0]
+	if vc.sortOf(p.Type()) != SInt || vc.sortOf(cl.fn.Signature.Results().At(0).Type()) != SBS {
+		return
+	}
+	vc.P.needSym["LeaderFn"] = true
+	env := &Env{f: f, names: map[string]EV{}, st: f.cur, old: f.cur, pkg: cl.fn.Pkg.Pkg}
+	qv := "cv_" + strings.ReplaceAll(strings.Trim(cl.id.t, "|"), "!", "_")
+	qv = mangle(qv)
+	env.names[p.Name()] = Val{qv, SInt, p.Type()}
+	for i, fv := range cl.fn.FreeVars {
+		if i < len(cl.bindings) {
+			env.names[fv.Name()] = cl.bindings[i]
+		}
+	}
+	env.results = []EV{Val{sx("LeaderFn", cl.id.t, qv), SBS, cl.fn.Signature.Results().At(0).Type()}}
+	env.underQuant = true
+	vc.quantDepth++
+	var pre, post []string
+	for _, r := range con.Requires {
+		pre = append(pre, env.evalBool(r.E))
+	}
+	for _, e := range con.Ensures {
+		post = append(post, env.evalBool(e.E))
+	}
+	vc.quantDepth--
+	lo, hi, _ := intRange(p.Type())
+	rng := "true"
+	if lo != nil {
+		rng = and(sx("<=", bigLit(lo), qv), sx("<=", qv, bigLit(hi)))
+	}
+	vc.used["CLOSURE-SPEC:"+vc.P.fnKey(cl.fn)] = true
+	vc.assume(fmt.Sprintf("(forall ((%s Int)) (! (=> %s %s) :pattern ((LeaderFn %s %s))))", qv, and(rng, and(pre...)), and(post...), cl.id.t, qv))
 }
 
 func (f *Frame) isRangeIndexLoad(v ssa.Value) bool {
